@@ -47,6 +47,43 @@ pub fn run_source(vm: &RootedThread, name: &str, src: &str, bytecode: bool) -> (
     }
 }
 
+/// job: {"id", "history": [{"vm": v, "prog": p, "src": ..., settings...}, ...]}: the steps are run in order, each on
+/// the VM with the given number (created on first use, kept for the whole history)
+fn run_history(job: &Value) -> Value {
+    let mut vms: HashMap<u64, RootedThread> = HashMap::new();
+    let mut obs = Vec::new();
+    for step in job["history"].as_array().cloned().unwrap_or_default() {
+        let v = step["vm"].as_u64().unwrap_or(1);
+        let (s, _) = settings_of(&step);
+        let vm = vms.entry(v).or_insert_with(|| fresh(&s)).clone();
+        apply_settings(&vm, &s);
+        host::clear();
+        crate::common::LAST_PANIC_LOC.with(|c| c.borrow_mut().clear());
+        let src = step["src"].as_str().unwrap_or("");
+        let (status, value, typ, msg) = run_source(&vm, "prog", src, false);
+        let log: Vec<i64> = host::take_log().into_iter().filter(|e| e.0 == -2).map(|e| e.2).collect();
+        let (frames, slen) = if status == "panic" {
+            (0, 0)
+        } else {
+            let i = vm.verif_stack_info();
+            (i.0, i.1)
+        };
+        let panicked = status == "panic";
+        obs.push(json!({"vm": v, "prog": step["prog"], "status": status, "value": value, "type": typ, "msg": msg,
+                        "class": error_class(&msg), "log": log, "frames": frames, "slen": slen,
+                        "panic_at": crate::common::LAST_PANIC_LOC.with(|c| c.borrow().clone())}));
+        if panicked {
+            if let Some(old) = vms.remove(&v) {
+                std::mem::forget(old);
+            }
+        }
+    }
+    for (_, vm) in vms.drain() {
+        drop(vm);
+    }
+    json!({"id": job["id"], "status": "ok", "obs": obs})
+}
+
 /// job: {"id","src", settings..., "stress": k, "fresh": bool, "bytecode": bool}
 pub fn cmd(_args: &[String]) {
     std::panic::set_hook(Box::new(|info| {
@@ -56,6 +93,9 @@ pub fn cmd(_args: &[String]) {
     }));
     let mut vms: HashMap<String, (RootedThread, usize)> = HashMap::new();
     serve(|job| {
+        if job.get("history").is_some() {
+            return run_history(job);
+        }
         let src = job["src"].as_str().unwrap_or("");
         let (s, key) = settings_of(job);
         let stress = job.get("stress").and_then(|v| v.as_u64()).unwrap_or(0) as usize;
